@@ -330,6 +330,63 @@ def run_sizing(params, known):
                 known=[], samples=samples, outcomes=outcomes, report_keys=['outcomes'])
 
 
+def run_send_fault(params, known):
+    """The socket refuses one datagram (the k-th `sendmsg()` fails once with ENOBUFS), for every k of a run: whatever the
+    agent does about it - give up, try again, stop pacing (an error that leaves the pacing timer is not judged here) - it
+    does not report the transfer as sent successfully unless every octet of the bundle has left the socket."""
+    violations = []
+    kinds = set()
+    keys = set()
+    count = 0
+
+    def viol(kind, detail, case):
+        if kind in kinds:
+            return
+        kinds.add(kind)
+        v = Violation(PROP, 'sizing', kind, dict(), '%r: %s' % (case, detail)).as_dict()
+        v['case'] = case
+        violations.append(v)
+    for (length, mtu) in ((60, 1000), (400, 120), (1000, 300), (70, 40)):
+        k = 0
+        while True:
+            case = dict(length=length, mtu=mtu, refused_sendmsg_call=k)
+            world = UdpWorld(dict(agents=('S',), mtu=mtu))
+            world.net.refuse_send = k
+            data = bundle_like(length, seed=9)
+            res = world.send('S', data)
+            try:
+                world.quiesce(max_steps=20000)
+            except HarnessError:
+                pass            # the pacing timer never comes to rest after the fault: nothing is claimed about that
+            if world.net.send_calls <= k:
+                break           # the run has fewer send calls than k: every position is done
+            count += 1
+            keys.add('%d/%d/%d' % (length, mtu, k))
+            k += 1
+            success = [sg for sg in world.signals['S'] if sg[0] == 'send_bundle_finished' and sg[3] == 'success']
+            if not success:
+                continue
+            cover = [0] * length
+            try:
+                for dg in world.net.log:
+                    for (kind, val) in decode_datagram(dg['data']):
+                        if kind == 'bundle' and val == data:
+                            cover = [c + 1 for c in cover]
+                        elif kind == 'ext' and 2 in val:
+                            (_xid, _total, off, chunk) = val[2]
+                            if data[off:off + len(chunk)] == chunk:
+                                for i in range(off, min(length, off + len(chunk))):
+                                    cover[i] += 1
+            except Exception as err:
+                viol('datagram-undecodable', '%s: %s' % (type(err).__name__, err), case)
+                continue
+            holes = [i for (i, c) in enumerate(cover) if c == 0]
+            if holes:
+                viol('success-reported-although-octets-never-left-the-socket', 'octets %d..%d (%d in all) were never sent, signals %r'
+                     % (holes[0], holes[-1], len(holes), success), case)
+    return dict(name=params['name'], evaluations=count, nontrivial_keys=sorted(keys), violations=violations, known=[], samples=[])
+
+
 def run_paced_control(params, known):
     '''A transfer is being paced out (datagrams wait for tokens between timer ticks) when the peer
     makes the sender queue a control message on the same socket (it announces that it listens:
@@ -1078,6 +1135,7 @@ def scenarios(tier):
     out.append(dict(name='end-to-end', kind='enum', runner='run_end_to_end', params=dict(name='end-to-end'), weight=30))
     out.append(dict(name='pop-histories', kind='enum', runner='run_pop_histories', params=dict(name='pop-histories'), weight=20))
     out.append(dict(name='paced-control', kind='enum', runner='run_paced_control', params=dict(name='paced-control'), weight=30))
+    out.append(dict(name='send-fault', kind='enum', runner='run_send_fault', params=dict(name='send-fault'), weight=10))
     depth = 6 if tier == 'thorough' else 5
     t1 = [0, 1, 2, 7]
     for first in t1:
